@@ -368,3 +368,449 @@ Proof.
     + rewrite C6, A8, app_nil_r; auto.
     + unfold outputs_modifiable in *. rewrite B3 in A9. rewrite A9 in Hm; [discriminate|congruence].
 Qed.
+
+(* ===== C11 clause 4: the transaction locktime ===== *)
+Lemma fold_max_pos : forall (f : core -> N) cs m,
+  (0 <? fold_left (fun m c => N.max m (f c)) cs m) = (0 <? m) || existsb (fun c => negb (f c =? 0)) cs.
+Proof.
+  intros f; induction cs as [|c cs IH]; intro m; cbn [fold_left existsb].
+  - rewrite orb_false_r; reflexivity.
+  - rewrite IH. destruct (f c =? 0) eqn:E; cbn [negb].
+    + apply N.eqb_eq in E; rewrite E, N.max_0_r; reflexivity.
+    + apply N.eqb_neq in E. assert ((0 <? N.max m (f c)) = true) as -> by (apply N.ltb_lt; lia).
+      rewrite orb_true_r; reflexivity.
+Qed.
+
+Lemma time_without_height : forall cs,
+  existsb (fun c => negb (c_time c =? 0)) cs = true ->
+  existsb (fun c => negb (c_height c =? 0)) cs = false -> existsb time_only cs = true.
+Proof.
+  induction cs as [|c cs IH]; cbn [existsb]; intros Ht Hh; [discriminate|].
+  apply orb_false_elim in Hh as [Hh1 Hh2]. unfold time_only at 1.
+  destruct (c_time c =? 0); cbn [negb] in *.
+  - cbn. apply IH; auto.
+  - apply negb_false_iff in Hh1; rewrite Hh1; reflexivity.
+Qed.
+
+(* the shape on which Locktime() and BIP-370 disagree: an input that supports only a time lock
+   next to an input that has a height lock *)
+Definition kind_conflict (p : pset) : bool :=
+  existsb time_only (p_cores p) && existsb (fun c => negb (c_height c =? 0)) (p_cores p).
+
+(* full statement (refuted below):
+     forall ins outs fb p0 ops, init ins outs fb = IOk p0 ->
+       locktime (run p0 ops) = spec_locktime (run p0 ops) *)
+Theorem locktime_is_max_of_selected_kind_partial : forall p,
+  kind_conflict p = false -> locktime p = spec_locktime p.
+Proof.
+  intros p Hc; unfold locktime, spec_locktime, kind_conflict, max_height, max_time in *.
+  rewrite !fold_max_pos; cbn [N.ltb N.compare orb].
+  destruct (existsb time_only (p_cores p)) eqn:ET; cbn [andb] in Hc.
+  - rewrite Hc.
+    assert (existsb (fun c => negb (c_time c =? 0)) (p_cores p) = true) as ->; [|reflexivity].
+    apply existsb_exists in ET as [c [Hin Hc']]. apply existsb_exists; exists c; split; auto.
+    unfold time_only in Hc'; apply andb_prop in Hc' as [H _]; exact H.
+  - destruct (existsb (fun c => negb (c_height c =? 0)) (p_cores p)) eqn:EH; [reflexivity|].
+    destruct (existsb (fun c => negb (c_time c =? 0)) (p_cores p)) eqn:ETT; [|reflexivity].
+    rewrite (time_without_height _ ETT EH) in ET; discriminate.
+Qed.
+
+Definition mk_in (t idx height time : N) : inarg :=
+  {| ia_cls := 0; ia_t := t; ia_idx := idx; ia_seq := 0; ia_height := height; ia_time := time |}.
+
+(* a time-only input 600000000 and an input with both (500000005, 100): Locktime() answers 100 *)
+Theorem locktime_is_max_of_selected_kind_refuted :
+  exists ins outs fb p0 ops, init ins outs fb = IOk p0 /\
+    locktime (run p0 ops) = 100 /\ spec_locktime (run p0 ops) = 600000000.
+Proof.
+  exists [mk_in 0 0 0 600000000; mk_in 1 0 100 500000005], [], None.
+  eexists; exists []; split; [vm_compute; reflexivity|]. split; vm_compute; reflexivity.
+Qed.
+
+(* ===== C11: multi-part operations are all-or-nothing ===== *)
+Definition is_add_io (o : op) : bool := match o with OAddInputs _ | OAddOutputs _ => true | _ => false end.
+
+(* full statement (refuted below):
+     forall p o, snd (step p o) = Err -> is_multi_part o = true -> fst (step p o) = p *)
+(* AddInputs / AddOutputs change nothing when they fail — unless the failing check is the
+   SanityCheck that runs AFTER the staged copy was published (then the result fails SanityCheck) *)
+Theorem multi_part_ops_atomic_partial : forall p o,
+  snd (step p o) = Err -> is_add_io o = true -> sanity (fst (step p o)) = true -> fst (step p o) = p.
+Proof.
+  intros p o He Hio Hs; destruct o; try discriminate; cbn [step] in *; revert He Hs.
+  - destruct (negb (forallb (fun a => ia_cls a =? 0) l)); [reflexivity|].
+    destruct (add_inputs p l) as [p'|]; [|reflexivity]. cbn [fst snd]. intros He Hs. rewrite Hs in He; discriminate.
+  - destruct (negb (forallb outarg_valid l)); [reflexivity|].
+    destruct (add_outputs p (map to_outp l)) as [p'|]; [|reflexivity]. cbn [fst snd]. intros He Hs. rewrite Hs in He; discriminate.
+Qed.
+
+(* every multi-part operation that fails leaves counts, outpoints, locktimes, flags and the number of
+   outputs as they were — with the same exception *)
+Theorem multi_part_ops_skeleton_atomic_partial : forall p o,
+  snd (step p o) = Err -> is_multi_part o = true -> sanity (fst (step p o)) = true -> same_skel p (fst (step p o)).
+Proof.
+  intros p o He Hm Hs.
+  destruct (is_add_io o) eqn:Eio; [rewrite (multi_part_ops_atomic_partial p o He Eio Hs); apply same_skel_refl|].
+  assert (forall o', step p o' = (let '((auxs, outs, sc), r) := local_step p o' in (upd p auxs outs sc, r)) ->
+          same_skel p (fst (step p o'))) as Hloc.
+  { intros o' E; rewrite E. destruct (local_step p o') as [[[auxs outs] sc] r] eqn:E'.
+    cbn [fst]. apply same_skel_upd. eapply local_step_len; eauto. }
+  destruct o; try discriminate; try (apply Hloc; reflexivity).
+  - (* issue *) cbn [step] in *; unfold do_issue in *. revert He Hs.
+    destruct (negb (issue_validate a)); [intros; apply same_skel_refl|].
+    destruct (p_cores p) eqn:Ecs; [intros; apply same_skel_refl|].
+    destruct (in_index p i true) as [[[n c0] ax]|o]; [|intros; apply same_skel_refl].
+    destruct (a_entropy ax); [intros; apply same_skel_refl|].
+    destruct (c_short c0); [intros; apply same_skel_refl|].
+    match goal with |- context[add_outputs ?p1 ?l] => destruct (add_outputs p1 l) as [p2|] eqn:E end.
+    + cbn [fst snd]. intros He Hs. rewrite Hs in He; discriminate.
+    + cbn [fst]. intros. apply same_skel_upd; reflexivity.
+  - (* reissue *) cbn [step] in *; unfold do_reissue in *. revert He Hs.
+    destruct (in_index p i true) as [[[n c0] ax]|o]; [|intros; apply same_skel_refl].
+    destruct (a_entropy ax); [intros; apply same_skel_refl|].
+    destruct (negb (reissue_validate a)); [intros; apply same_skel_refl|].
+    match goal with |- context[add_outputs ?p1 ?l] => destruct (add_outputs p1 l) as [p2|] eqn:E end.
+    + cbn [fst snd]. intros He Hs. rewrite Hs in He; discriminate.
+    + intros; apply same_skel_refl.
+Qed.
+
+Definition issue_plain : issue_args :=
+  {| is_prec := 0; is_contract := 0; is_aamt := 1000; is_tamt := 0; is_aaddr := 1; is_taddr := 0; is_blinded := false |}.
+
+(* outputs locked: AddInIssuance returns an error and leaves the issuance on the input (shallow Copy) *)
+Theorem multi_part_ops_atomic_refuted :
+  exists ins outs fb p0 ops o, init ins outs fb = IOk p0 /\ is_multi_part o = true /\
+    snd (step (run p0 ops) o) = Err /\ fst (step (run p0 ops) o) <> run p0 ops
+    /\ sanity (fst (step (run p0 ops) o)) = true.
+Proof.
+  exists [mk_in 0 0 0 0], [], None. eexists. exists [OSetMod (Some 1)], (OIssue 0%Z issue_plain).
+  split; [vm_compute; reflexivity|]. split; [reflexivity|]. split; [vm_compute; reflexivity|].
+  split; [|vm_compute; reflexivity].
+  vm_compute. intro H. discriminate H.
+Qed.
+
+(* ===== C11: an already finalized input is never altered ===== *)
+Lemma in_index_inl : forall p i g n c a, in_index p i g = inl (n, c, a) ->
+  nth_error (p_cores p) n = Some c /\ nth_error (p_auxs p) n = Some a.
+Proof.
+  intros p i g n c a H; unfold in_index in H.
+  destruct (i <? 0)%Z; [destruct g; discriminate|].
+  destruct (Z.of_N (g_nin p) - 1 <? i)%Z; [discriminate|].
+  destruct (nth_error (p_cores p) (Z.to_nat i)) eqn:E1; [|discriminate].
+  destruct (nth_error (p_auxs p) (Z.to_nat i)) eqn:E2; [|discriminate].
+  inversion H; subst; auto.
+Qed.
+
+Definition keeps_finalized (f : core -> aux -> aux * lres) : Prop :=
+  forall c a, finalized a = true -> fst (f c a) = a.
+
+Lemma set_nth_frozen : forall (f : core -> aux -> aux * lres) c m x n a auxs,
+  keeps_finalized f -> nth_error auxs m = Some x -> nth_error auxs n = Some a -> finalized a = true ->
+  nth_error (set_nth m (fst (f c x)) auxs) n = Some a.
+Proof.
+  intros f c m x n a auxs Hk Hm Hn Hf. destruct (Nat.eq_dec m n) as [->|Hne].
+  - assert (x = a) as -> by congruence. rewrite (Hk c a Hf). eapply nth_set_nth_eq; eauto.
+  - rewrite nth_set_nth_neq; auto.
+Qed.
+
+Lemma on_input_frozen : forall p i g f auxs outs sc r n a,
+  keeps_finalized f -> on_input p i g f = ((auxs, outs, sc), r) ->
+  nth_error (p_auxs p) n = Some a -> finalized a = true -> nth_error auxs n = Some a.
+Proof.
+  intros p i g f auxs outs sc r n a Hk H Hn Hf; unfold on_input in H.
+  destruct (in_index p i g) as [[[m c] x]|o] eqn:E; [|inversion H; subst; auto].
+  apply in_index_inl in E as [_ Hm].
+  pose proof (set_nth_frozen f c m x n a (p_auxs p) Hk Hm Hn Hf) as Hr.
+  destruct (f c x) as [a' r']; inversion H; subst; exact Hr.
+Qed.
+
+Lemma finalize_local_keeps : keeps_finalized finalize_local.
+Proof.
+  intros c a H; unfold finalize_local, finalize_taproot, finalize_witness, finalize_nonwitness; rewrite H.
+  destruct (a_w a), (is_taproot a), (a_nw a); reflexivity.
+Qed.
+
+Lemma maybe_finalize_local_keeps : keeps_finalized maybe_finalize_local.
+Proof. intros c a H; unfold maybe_finalize_local; rewrite H; reflexivity. Qed.
+
+Lemma finalize_loop_frozen : forall f, keeps_finalized f ->
+  forall fuel cs n auxs outs sc auxs' r m a,
+  finalize_loop f cs n fuel auxs outs sc = (auxs', r) ->
+  nth_error auxs m = Some a -> finalized a = true -> nth_error auxs' m = Some a.
+Proof.
+  intros f Hk; induction fuel as [|fuel IH]; intros cs n auxs outs sc auxs' r m a H Hm Hf; cbn in H.
+  - destruct cs; inversion H; subst; auto.
+  - destruct cs as [|c cs]; [inversion H; subst; auto|]. cbn [finalize_loop] in H. revert H.
+    destruct (nth_error auxs n) as [x|] eqn:En; [|intro H; inversion H; subst; auto].
+    pose proof (set_nth_frozen f c n x m a auxs Hk En Hm Hf) as Hr.
+    destruct (f c x) as [a' r'] eqn:Ef. cbn [fst] in Hr.
+    destruct (finish r' (sanity_parts (set_nth n a' auxs) outs sc)); intro H.
+    + eapply IH; eauto.
+    + inversion H; subst; auto.
+    + inversion H; subst; auto.
+Qed.
+
+(* the operations for which the claim holds; AddInIssuance, AddInReissuance and the blinder are missing *)
+Definition frozen_scope (o : op) : bool :=
+  match o with
+  | OAddInputs _ | OAddOutputs _ | OSign _ _ _ _ _ _ | OTapKeySig _ _ | OTapScriptSig _ _
+  | OFinalize _ | OMaybeFinalize _ | OFinalizeAll | OMaybeFinalizeAll | OSetMod _ => true
+  | _ => false
+  end.
+
+(* full statement (refuted below):
+     forall p o n a, is_multi_part o = true -> nth_error (p_auxs p) n = Some a -> finalized a = true ->
+       nth_error (p_auxs (fst (step p o))) n = Some a *)
+Theorem finalized_inputs_frozen_partial : forall p o n a,
+  frozen_scope o = true -> nth_error (p_auxs p) n = Some a -> finalized a = true ->
+  nth_error (p_auxs (fst (step p o))) n = Some a.
+Proof.
+  intros p o n a Hsc Hn Hf; destruct o; try discriminate; cbn [step].
+  - cbn; auto.
+  - destruct (negb (forallb (fun a0 => ia_cls a0 =? 0) l)); [auto|].
+    destruct (add_inputs p l) as [p'|] eqn:E; [|auto]. cbn [fst].
+    apply add_inputs_inv in E as (_ & _ & _ & _ & _ & _ & A7 & _). rewrite A7.
+    rewrite nth_error_app1; auto. apply nth_error_Some; congruence.
+  - destruct (negb (forallb outarg_valid l)); [auto|].
+    destruct (add_outputs p (map to_outp l)) as [p'|] eqn:E; [|auto]. cbn [fst].
+    apply add_outputs_inv in E as (_ & _ & _ & _ & _ & _ & A7 & _). rewrite A7; auto.
+  - (* sign *) cbn [local_step].
+    destruct (in_index p i true) as [[[m c] x]|o] eqn:E; [|cbn; auto].
+    match goal with |- context[on_input p i true ?f] => destruct (on_input p i true f) as [[[auxs outs] sc] r] eqn:Eo end.
+    cbn. eapply on_input_frozen; eauto.
+    intros c0 a0 H0; unfold sign_local; rewrite H0; reflexivity.
+  - cbn [local_step].
+    match goal with |- context[on_input p i true ?f] => destruct (on_input p i true f) as [[[auxs outs] sc] r] eqn:Eo end.
+    cbn. eapply on_input_frozen; eauto. intros c0 a0 H0; cbn beta; rewrite H0; reflexivity.
+  - cbn [local_step].
+    match goal with |- context[on_input p i true ?f] => destruct (on_input p i true f) as [[[auxs outs] sc] r] eqn:Eo end.
+    cbn. eapply on_input_frozen; eauto. intros c0 a0 H0; cbn beta; rewrite H0; reflexivity.
+  - (* finalize *) cbn [local_step].
+    destruct ((i <? 0)%Z || (Z.of_nat (length (p_auxs p)) <=? i)%Z); [cbn; auto|].
+    destruct (nth_error (p_cores p) (Z.to_nat i)) as [c|]; [|cbn; auto].
+    destruct (nth_error (p_auxs p) (Z.to_nat i)) as [x|] eqn:Ex; [|cbn; auto].
+    pose proof (set_nth_frozen finalize_local c (Z.to_nat i) x n a (p_auxs p) finalize_local_keeps Ex Hn Hf) as Hr.
+    destruct (finalize_local c x) as [a' r']; cbn; exact Hr.
+  - cbn [local_step].
+    destruct ((i <? 0)%Z || (Z.of_nat (length (p_auxs p)) <=? i)%Z); [cbn; auto|].
+    destruct (nth_error (p_cores p) (Z.to_nat i)) as [c|]; [|cbn; auto].
+    destruct (nth_error (p_auxs p) (Z.to_nat i)) as [x|] eqn:Ex; [|cbn; auto].
+    pose proof (set_nth_frozen maybe_finalize_local c (Z.to_nat i) x n a (p_auxs p) maybe_finalize_local_keeps Ex Hn Hf) as Hr.
+    destruct (maybe_finalize_local c x) as [a' r']; cbn; exact Hr.
+  - cbn [local_step].
+    destruct (finalize_loop finalize_local (p_cores p) 0 (length (p_cores p)) (p_auxs p) (p_outs p) (g_scalars p)) as [auxs r] eqn:E.
+    cbn. eapply finalize_loop_frozen; eauto. apply finalize_local_keeps.
+  - cbn [local_step].
+    destruct (finalize_loop maybe_finalize_local (p_cores p) 0 (length (p_cores p)) (p_auxs p) (p_outs p) (g_scalars p)) as [auxs r] eqn:E.
+    cbn. eapply finalize_loop_frozen; eauto. apply maybe_finalize_local_keeps.
+Qed.
+
+(* a signed and finalized p2wpkh input, then AddInIssuance on it: accepted, the input is altered *)
+Theorem finalized_inputs_frozen_refuted :
+  exists ins outs fb p0 ops o a, init ins outs fb = IOk p0 /\ is_multi_part o = true /\
+    nth_error (p_auxs (run p0 ops)) 0 = Some a /\ finalized a = true /\
+    snd (step (run p0 ops) o) = Ok /\ nth_error (p_auxs (fst (step (run p0 ops) o))) 0 <> Some a.
+Proof.
+  exists [mk_in 0 0 0 0], [], None. eexists.
+  exists [OWUtxo 0%Z (Some {| u_script := SWpkh 0; u_conf := false |}); OSign 0%Z true 1 (Some 0) None None; OFinalize 0%Z].
+  exists (OIssue 0%Z issue_plain). eexists.
+  split; [vm_compute; reflexivity|]. split; [reflexivity|]. split; [vm_compute; reflexivity|].
+  split; [vm_compute; reflexivity|]. split; [vm_compute; reflexivity|].
+  vm_compute. intro H. discriminate H.
+Qed.
+
+(* ===== C11: the packet serialises and re-parses to itself ===== *)
+(* full statement (refuted below, three ways):
+     forall ins outs fb p0 ops, init ins outs fb = IOk p0 -> rt (run p0 ops) = true *)
+
+(* a failed AddInWitnessScript (no witness utxo) leaves the script: serialises, no longer parses *)
+Theorem reachable_roundtrips_refuted_failed_setter :
+  exists ins outs fb p0 o, init ins outs fb = IOk p0 /\ rt p0 = true /\
+    snd (step p0 o) = Err /\ rt (fst (step p0 o)) = false.
+Proof.
+  exists [mk_in 0 0 0 0], [], None. eexists. exists (OWScript 0%Z (Some (SMs 2))).
+  split; [vm_compute; reflexivity|]. repeat split; vm_compute; reflexivity.
+Qed.
+
+(* an input with both required locktimes: the height is written under the time-locktime key *)
+Theorem reachable_roundtrips_refuted_both_locktimes :
+  exists ins outs fb p0, init ins outs fb = IOk p0 /\ rt p0 = false.
+Proof.
+  exists [mk_in 0 0 100 500000005], [], None. eexists. split; vm_compute; reflexivity.
+Qed.
+
+(* 253 inputs: the count is written as a three-byte varint and read back from one byte *)
+Theorem reachable_roundtrips_refuted_count_253 :
+  exists ins outs fb p0 o, init ins outs fb = IOk p0 /\ snd (step p0 o) = Ok /\ rt (fst (step p0 o)) = false
+    /\ g_nin (fst (step p0 o)) = 253.
+Proof.
+  exists [], [], None. eexists. exists (OAddInputs (map (fun k => mk_in 0 (N.of_nat k) 0 0) (seq 0 253))).
+  split; [vm_compute; reflexivity|]. repeat split; vm_compute; reflexivity.
+Qed.
+
+(* what the creator builds from well-formed arguments does round-trip *)
+Definition inarg_plain (a : inarg) : Prop := ia_cls a = 0 /\ (ia_time a = 0 \/ ia_height a = 0).
+Definition outarg_plain (a : outarg) : Prop := oa_cls a = 0 /\ oa_bk a <> 2.
+
+Lemma new_outs_map : forall l p p', new_outs p l = IOk p' -> add_outputs p (map to_outp l) = Some p'.
+Proof.
+  induction l as [|a l IH]; intros p p' H; cbn in H; cbn [map add_outputs].
+  - inversion H; reflexivity.
+  - destruct (oa_cls a =? 2); [discriminate|].
+    destruct (add_output p (to_outp a)) as [p1|] eqn:E; [|discriminate]. apply IH; exact H.
+Qed.
+
+Lemma forallb_repeat {A} : forall (f : A -> bool) x n, f x = true -> forallb f (repeat x n) = true.
+Proof. intros f x n H; induction n; cbn; auto. rewrite H; auto. Qed.
+
+Lemma forallb_map_Forall {A B} : forall (f : B -> bool) (g : A -> B) (P : A -> Prop) l,
+  (forall a, P a -> f (g a) = true) -> Forall P l -> forallb f (map g l) = true.
+Proof.
+  intros f g P l Hp Hl; induction Hl as [|a l Ha Hl IH]; cbn; auto. rewrite (Hp a Ha); auto.
+Qed.
+
+Lemma existsb_map_false {A B} : forall (f : B -> bool) (g : A -> B) l,
+  (forall a, f (g a) = false) -> existsb f (map g l) = false.
+Proof. intros f g l H; induction l; cbn; auto. rewrite H; auto. Qed.
+
+Theorem reachable_roundtrips_partial : forall ins outs fb p0,
+  init ins outs fb = IOk p0 -> Forall inarg_plain ins -> Forall outarg_plain outs ->
+  (length ins < 253)%nat -> (length outs < 253)%nat -> rt p0 = true.
+Proof.
+  intros ins outs fb p0 H Hi Ho Li Lo.
+  pose proof (init_cm _ _ _ _ H) as [C1 C2]. unfold init in H.
+  destruct (add_inputs (empty_pset fb) ins) as [p|] eqn:E; [|discriminate].
+  apply new_outs_map in H.
+  apply add_inputs_inv in E as (A1 & A2 & A3 & A4 & A5 & A6 & A7 & A8 & _).
+  apply add_outputs_inv in H as (B1 & B2 & B3 & B4 & B5 & B6 & B7 & B8 & _).
+  cbn in A1, A2, A3, A4, A5, A6, A7, A8.
+  assert (p_cores p0 = map to_core ins) as Hc by congruence.
+  assert (p_auxs p0 = repeat aux0 (length ins)) as Ha by congruence.
+  assert (p_outs p0 = map to_outp outs) as Hout by (rewrite B8, A8; reflexivity).
+  assert (g_flags p0 = Some 3) as Hf by congruence.
+  assert (g_scalars p0 = []) as Hs by congruence.
+  unfold rt, sanity, sanity_parts. rewrite Hs, Hf, Ha, Hout, Hc.
+  rewrite (forallb_repeat in_sane aux0 _ eq_refl), (forallb_repeat aux_reparses aux0 _ eq_refl).
+  rewrite (existsb_map_false o_blinded to_outp outs (fun _ => eq_refl)).
+  rewrite (forallb_map_Forall out_sane to_outp outarg_plain outs); auto.
+  2:{ intros a [Hc0 _]. unfold out_sane, to_outp; cbn. rewrite Hc0; reflexivity. }
+  rewrite (forallb_map_Forall out_reparses to_outp outarg_plain outs); auto.
+  2:{ intros a [Hc0 Hb]. unfold out_reparses, to_outp; cbn. rewrite Hc0; cbn.
+      apply N.eqb_neq in Hb; rewrite Hb; reflexivity. }
+  rewrite (forallb_map_Forall core_reparses to_core inarg_plain ins); auto.
+  2:{ intros a [Hc0 Hl]. unfold core_reparses, to_core; cbn. rewrite Hc0; cbn.
+      destruct Hl as [Hl|Hl]; rewrite Hl; cbn; rewrite ?andb_false_r; reflexivity. }
+  rewrite C1, C2, Hc, Hout, !map_length, !N.eqb_refl. cbn [andb negb nodup_n].
+  assert ((N.of_nat (length ins) <? 253) = true) as -> by (apply N.ltb_lt; lia).
+  assert ((N.of_nat (length outs) <? 253) = true) as -> by (apply N.ltb_lt; lia).
+  reflexivity.
+Qed.
+
+(* ---------- the hypotheses of the theorems are satisfiable: a packet with two inputs and an output,
+   signed, finalized, with a failed operation in the middle ---------- *)
+Definition ex_ins := [mk_in 0 0 0 0; mk_in 1 0 0 0].
+Definition ex_outs := [{| oa_cls := 0; oa_amount := 1000; oa_script := Some (SWpkh 1); oa_bk := 0; oa_bidx := 0 |}].
+Definition ex_ops :=
+  [OWUtxo 0%Z (Some {| u_script := SWpkh 0; u_conf := false |}); OWScript 1%Z (Some (SMs 2));
+   OSign 0%Z true 1 (Some 0) None None; OFinalize 0%Z; OAddInputs [mk_in 2 1 0 0]].
+
+Example ex_init_ok : exists p0, init ex_ins ex_outs (Some 77) = IOk p0 /\ g_nin (run p0 ex_ops) = 3
+  /\ inarg_plain (mk_in 0 0 0 0) /\ kind_conflict (run p0 ex_ops) = false.
+Proof. eexists; split; [vm_compute; reflexivity|]. repeat split; try (vm_compute; reflexivity). left; reflexivity. Qed.
+
+Example ex_finalized : exists p0 a, init ex_ins ex_outs None = IOk p0 /\
+  nth_error (p_auxs (run p0 ex_ops)) 0 = Some a /\ finalized a = true /\ frozen_scope OFinalizeAll = true.
+Proof. do 2 eexists; split; [vm_compute; reflexivity|]. repeat split; vm_compute; reflexivity. Qed.
+
+Example ex_failed_add : exists p0, init ex_ins ex_outs None = IOk p0 /\
+  snd (step p0 (OAddInputs [mk_in 0 0 0 0])) = Err /\ sanity (fst (step p0 (OAddInputs [mk_in 0 0 0 0]))) = true
+  /\ inputs_modifiable (fst (step p0 (OSetMod (Some 2)))) = false.
+Proof. eexists; split; [vm_compute; reflexivity|]. repeat split; vm_compute; reflexivity. Qed.
+
+(* ===== the kind selection is well defined: no time-only input next to a height-only one ===== *)
+Definition kc (p : pset) : Prop :=
+  forall x y, In x (p_cores p) -> In y (p_cores p) -> time_only x = true -> height_only y = true -> False.
+
+Lemma lock_loop_ok : forall cs auxs t h sigs r ct ch,
+  (ct = 0 -> t = 0) -> (ch = 0 -> h = 0) -> lock_loop cs auxs t h sigs = Some r ->
+  forall e, In e cs -> (time_only e = true -> ct <> 0) /\ (height_only e = true -> ch <> 0).
+Proof.
+  induction cs as [|c cs IH]; intros auxs t h sigs r ct ch Ht Hh H e Hin; [destruct Hin|].
+  cbn [lock_loop] in H. unfold time_only, height_only.
+  destruct (c_time c =? 0) eqn:E1; destruct (c_height c =? 0) eqn:E2; cbn [negb andb] in H.
+  - (* neither *) destruct Hin as [<-|Hin]; [rewrite E1, E2; cbn; split; discriminate|].
+    exact (IH _ _ _ _ _ ct ch Ht Hh H e Hin).
+  - (* height only *)
+    destruct (h =? 0) eqn:E3; [discriminate|]. apply N.eqb_neq in E3.
+    destruct Hin as [<-|Hin].
+    + rewrite E1, E2; cbn; split; [discriminate|]. intros _ Hc; apply E3; auto.
+    + refine (IH _ _ _ _ _ ct ch _ _ H e Hin).
+      * intros _; reflexivity.
+      * intro Hc; exfalso; apply E3; auto.
+  - (* time only *)
+    destruct (t =? 0) eqn:E3; [discriminate|]. apply N.eqb_neq in E3. cbn [N.eqb] in H.
+    destruct Hin as [<-|Hin].
+    + rewrite E1, E2; cbn; split; [|discriminate]. intros _ Hc; apply E3; auto.
+    + refine (IH _ _ _ _ _ ct ch _ _ H e Hin).
+      * intro Hc; exfalso; apply E3; auto.
+      * intros _; reflexivity.
+  - (* both *)
+    destruct Hin as [<-|Hin]; [rewrite E1, E2; cbn; split; discriminate|].
+    refine (IH _ _ _ _ _ ct ch _ _ H e Hin).
+    + intro Hc. rewrite (Ht Hc); reflexivity.
+    + intro Hc. rewrite (Hh Hc); reflexivity.
+Qed.
+
+Lemma add_input_kc : forall p a p', add_input p a = Some p' -> kc p -> kc p'.
+Proof.
+  intros p a p' H K. pose proof H as H0. apply add_input_inv in H0 as (_ & _ & _ & _ & _ & A6 & _).
+  unfold add_input in H.
+  destruct ((ia_cls a =? 1) || (ia_cls a =? 2)); [discriminate|].
+  destruct (existsb (same_outpoint (to_core a)) (p_cores p)); [discriminate|].
+  destruct (negb (inputs_modifiable p)); [discriminate|].
+  set (c := to_core a) in *.
+  assert (forall e, In e (p_cores p) -> (time_only e = true -> height_only c = false) /\ (height_only e = true -> time_only c = false)) as Hnew.
+  { intros e He. unfold time_only at 2, height_only at 1.
+    destruct (negb (c_height c =? 0) || negb (c_time c =? 0)) eqn:Eany.
+    - destruct (lock_loop (p_cores p) (p_auxs p) (c_time c) (c_height c) false) as [r|] eqn:EL; [|discriminate].
+      destruct (lock_loop_ok _ _ _ _ _ _ (c_time c) (c_height c) (fun x => x) (fun x => x) EL e He) as [L1 L2].
+      split; intro Hk.
+      + apply L1 in Hk. apply N.eqb_neq in Hk; rewrite Hk; reflexivity.
+      + apply L2 in Hk. apply N.eqb_neq in Hk; rewrite Hk, andb_false_r; reflexivity.
+    - apply orb_false_elim in Eany as [Ea Eb]. apply negb_false_iff in Ea, Eb. rewrite Ea, Eb; cbn; split; reflexivity. }
+  unfold kc; rewrite A6. intros x y Hx Hy Tx Hy'.
+  apply in_app_or in Hx as [Hx|[<-|[]]]; apply in_app_or in Hy as [Hy|[<-|[]]].
+  - eapply K; eauto.
+  - destruct (Hnew x Hx) as [L _]. rewrite (L Tx) in Hy'; discriminate.
+  - destruct (Hnew y Hy) as [_ L]. rewrite (L Hy') in Tx; discriminate.
+  - unfold time_only, height_only in *. destruct (c_time c =? 0); cbn in *; congruence.
+Qed.
+
+Lemma add_inputs_kc : forall l p p', add_inputs p l = Some p' -> kc p -> kc p'.
+Proof.
+  induction l as [|a l IH]; intros p p' H C; cbn in H; [inversion H; subst; auto|].
+  destruct (add_input p a) as [p1|] eqn:E1; [|discriminate]. eapply IH; eauto. eapply add_input_kc; eauto.
+Qed.
+
+Lemma cores_kc : forall p p', p_cores p' = p_cores p -> kc p -> kc p'.
+Proof. intros p p' H K; unfold kc in *; rewrite H; exact K. Qed.
+
+Lemma step_kc : forall p o, kc p -> kc (fst (step p o)).
+Proof.
+  intros p o C; destruct (step_rel_holds p o) as [H|f H|l H|p1 p2 l H1 H2 H3].
+  - destruct H as (_ & _ & _ & _ & A5 & _). eapply cores_kc; eauto.
+  - rewrite H; exact C.
+  - eapply add_inputs_kc; eauto.
+  - destruct H1 as (_ & _ & _ & _ & B5 & _), H3 as (_ & _ & _ & _ & C5 & _).
+    apply add_outputs_inv in H2 as (_ & _ & _ & _ & _ & A6 & _). eapply cores_kc; [|exact C]. congruence.
+Qed.
+
+Theorem kinds_compatible : forall ins outs fb p0 ops, init ins outs fb = IOk p0 ->
+  forall x y, In x (p_cores (run p0 ops)) -> In y (p_cores (run p0 ops)) ->
+  time_only x = true -> height_only y = true -> False.
+Proof.
+  intros ins outs fb p0 ops H. apply (run_inv kc step_kc).
+  unfold init in H. destruct (add_inputs (empty_pset fb) ins) as [p|] eqn:E; [|discriminate].
+  apply new_outs_inv in H as [l' H]. apply add_outputs_inv in H as (_ & _ & _ & _ & _ & A6 & _).
+  eapply cores_kc; [exact A6|]. eapply add_inputs_kc; eauto. intros x y [].
+Qed.
